@@ -655,6 +655,9 @@ def _vec_from_elem(ctx, v, n):
 @model(r'^std::vec::Vec::<.*>::push$')
 def _vec_push(ctx, p, v):
     s = ctx.deref(p)
+    if hasattr(s, 'push_model'):
+        s.push_model(ctx, p, v)
+        return UNIT
     ctx.write(p, Seq(s.ents + ((True, v),)))
     return UNIT
 
@@ -734,6 +737,16 @@ def slice_window(ctx, p):
     if not (isinstance(a, CI) and isinstance(b, CI)):
         raise Unsupported('symbolic slice window')
     return v, a.v, b.v
+
+
+@model(r'^core::slice::<impl \[.*\]>::contains$')
+def _slice_contains(ctx, p, kp):
+    v = ctx.deref(p)
+    k = ctx.deref(kp)
+    if isinstance(v, KeyLog):
+        return v.contains(bv(k[0]))
+    s, a, b = slice_window(ctx, p)
+    return b_or(*[b_and(g, struct_eq(ctx, x, k)) for g, x in s.ents[a:b]])
 
 
 @model(r'^core::slice::<impl \[.*\]>::last$')
@@ -957,7 +970,7 @@ def _iter_collect_vec(ctx, it):
     return Seq(tuple(iter_realise(ctx, it)))
 
 
-@model(r'^<(std::slice::Iter(Mut)?<.*>|std::vec::IntoIter<.*>|std::iter::Enumerate<.*>|std::array::IntoIter<.*>) as std::iter::Iterator>::next$')
+@model(r'^<(std::slice::Iter(Mut)?<.*>|std::vec::IntoIter<.*>|std::iter::Enumerate<.*>|std::array::IntoIter<.*>|std::str::Chars) as std::iter::Iterator>::next$')
 def _iter_next(ctx, p):
     it = ctx.deref(p)
     if it.stages:
@@ -1110,11 +1123,117 @@ def _assert_failed(ctx, *args):
     return X.DIVERGE
 
 
-@model(r'^std::fmt::Arguments::<.*>::(new|from_str|from_str_nonconst|new_const|new_v1).*$')
+@model(r'^std::fmt::Arguments(::<.*>)?::(new|from_str|from_str_nonconst|new_const|new_v1).*$')
 def _fmt_arguments(ctx, *args):
     return Opaque('fmt::Arguments', None)
 
 
-@model(r'^core::fmt::rt::Argument::<.*>::new_\w+::<.*>$')
+@model(r'^core::fmt::rt::Argument(::<.*>)?::new_\w+::<.*>$')
 def _fmt_argument(ctx, p):
     return Opaque('fmt::Argument', None)
+
+
+# ------------------------------------------------------------------ strings (concrete; abstract tokens live in props/uci_tokens.py)
+
+def as_str(ctx, x):
+    """StrV from a &str value, a String value or a pointer to either"""
+    if isinstance(x, (Ptr, PtrIte)):
+        x = ctx.deref(x)
+    return x
+
+
+@model(r'^core::str::<impl str>::chars$')
+def _str_chars(ctx, s):
+    s = as_str(ctx, s)
+    if hasattr(s, 'chars_model'):
+        return s.chars_model(ctx)
+    return IterV(tuple((True, CI(ord(c), 32)) for c in s.s))
+
+
+@model(r'^<std::str::Chars as std::iter::Iterator>::next$')
+def _chars_next(ctx, p):
+    return _iter_next(ctx, p)
+
+
+@model(r'^<char as std::string::ToString>::to_string$')
+def _char_to_string(ctx, p):
+    c = ctx.deref(p)
+    if hasattr(c, 'char_to_string'):
+        return c.char_to_string(ctx)
+    if not isinstance(c, CI):
+        raise Unsupported('to_string of symbolic char')
+    return StrV(chr(c.v))
+
+
+@model(r'^<str as std::string::ToString>::to_string$')
+def _str_to_string(ctx, s):
+    return as_str(ctx, s)
+
+
+@model(r'^<std::string::String as std::string::ToString>::to_string$')
+def _string_to_string(ctx, s):
+    return as_str(ctx, s)
+
+
+@model(r'^<std::string::String as std::ops::Deref>::deref$')
+def _string_deref(ctx, p):
+    return as_str(ctx, p)
+
+
+@model(r'^std::string::String::as_str$')
+def _string_as_str(ctx, p):
+    return as_str(ctx, p)
+
+
+@model(r'^std::string::String::new$')
+def _string_new(ctx):
+    return StrV('')
+
+
+@model(r'^std::string::String::is_empty$')
+def _string_is_empty(ctx, p):
+    s = as_str(ctx, p)
+    if hasattr(s, 'is_empty_model'):
+        return s.is_empty_model(ctx)
+    return len(s.s) == 0
+
+
+@model(r'^std::string::String::push$')
+def _string_push(ctx, p, c):
+    s = ctx.deref(p)
+    if hasattr(s, 'push_model'):
+        ctx.write(p, s.push_model(ctx, c))
+        return UNIT
+    if not isinstance(c, CI):
+        raise Unsupported('String::push of symbolic char')
+    ctx.write(p, StrV(s.s + chr(c.v)))
+    return UNIT
+
+
+@model(r'^core::str::<impl str>::parse::<(\w+)>$')
+def _str_parse(ctx, s):
+    s = as_str(ctx, s)
+    t = re.search(r'parse::<(\w+)>$', ctx.callee).group(1)
+    if hasattr(s, 'parse_model'):
+        return s.parse_model(ctx, t)
+    w, signed = X.INT_TYPES[t]
+    txt = s.s
+    good = re.fullmatch(r'\+?\d+' if not signed else r'[+-]?\d+', txt) is not None
+    if good:
+        v = int(txt)
+        lo, hi = (-(1 << (w - 1)), (1 << (w - 1)) - 1) if signed else (0, (1 << w) - 1)
+        if lo <= v <= hi:
+            return ok(CI(v, w))
+    return err(Opaque('ParseIntError'))
+
+
+@model(r'^<(str|std::string::String) as std::cmp::PartialEq(<.*>)?>::eq$')
+def _str_eq(ctx, a, b):
+    a, b = as_str(ctx, a), as_str(ctx, b)
+    if isinstance(a, (Ptr, PtrIte)):
+        a = ctx.deref(a)
+    if hasattr(a, 'eq_model'):
+        return a.eq_model(ctx, b)
+    if hasattr(b, 'eq_model'):
+        return b.eq_model(ctx, a)
+    return a.s == b.s
